@@ -49,3 +49,71 @@ async def run_until_done(loop, tasks, limit_s=600.0, hooks=()):
         while pend and pend[0][0] <= loop._vnow + 1e-9:
             _tm, fn = pend.pop(0)
             fn()
+
+
+class Lifecycle:
+    """The real ControllerApplication through its own connect() / start_network() / disconnect() on one persistent simulated NCP
+    (NcpEzsp + NetStore): every connect() builds a new EZSP object on a new fake gateway, exactly as the application does it."""
+
+    def __init__(self, loop, version, source_routing=False):
+        from . import ncp_netinfo
+        self.loop = loop
+        self.app = compat.make_app({"source_routing": True} if source_routing else None)
+        self.ncp = ncp_ezsp.NcpEzsp(version, loop, negotiated=False)
+        self.store = ncp_netinfo.NetStore(self.ncp)
+        self.ncp.reset_hooks = [self.store.on_reset]
+        self.gateways = []
+        self.on_gateway = None
+
+    async def _patched(self, coro_fn):
+        import bellows.uart
+        import zigpy.device
+        life = self
+
+        async def fake_connect(config, application, use_thread=True):
+            gw = ncp_ezsp.FakeGateway(life.ncp)
+            life.ncp.deliver = application.frame_received
+            life.ncp.negotiated = False
+            life.gateways.append(gw)
+            if life.on_gateway:
+                life.on_gateway(gw, application)
+            return gw
+
+        async def no_init(self_):           # zigpy-side initialisation of the coordinator's own device object (ZDO traffic to itself)
+            return None
+        o1, o2 = bellows.uart.connect, zigpy.device.Device.schedule_initialize
+        bellows.uart.connect, zigpy.device.Device.schedule_initialize = fake_connect, no_init
+        try:
+            return await coro_fn()
+        finally:
+            bellows.uart.connect, zigpy.device.Device.schedule_initialize = o1, o2
+
+    async def run(self, coro_fn, limit_s=300.0):
+        """-> '' | exception class name | 'hang'"""
+        async def body():
+            tk = asyncio.ensure_future(coro_fn())
+            ok = await run_until_done(self.loop, [tk], limit_s=limit_s)
+            if not ok or not tk.done():
+                tk.cancel()
+                await settle(self.loop)
+                return "hang"
+            if tk.cancelled():
+                return "CancelledError"
+            return "" if tk.exception() is None else type(tk.exception()).__name__
+        return await self._patched(body)
+
+    async def form(self):
+        """give the NCP a stored network (written through the real write_network_info), stack not running"""
+        import zigpy.state
+        import zigpy.types as zt
+        st = self.store
+        ni = zigpy.state.NetworkInfo(
+            extended_pan_id=zt.ExtendedPanId(bytes(range(8))), pan_id=zt.PanId(0x1234), nwk_update_id=1, nwk_manager_id=zt.NWK(0), channel=15,
+            channel_mask=zt.Channels.from_channel_list([15]), security_level=5,
+            network_key=zigpy.state.Key(key=zt.KeyData(bytes(range(16))), seq=1, tx_counter=100),
+            tc_link_key=zigpy.state.Key(key=zt.KeyData(b"ZigBeeAlliance09"), partner_ieee=zt.EUI64(st.factory_eui), tx_counter=5))
+        node = zigpy.state.NodeInfo(nwk=zt.NWK(0), ieee=zt.EUI64(st.factory_eui), logical_type=0)
+        r = await self.run(lambda: self.app.write_network_info(network_info=ni, node_info=node), 600)
+        if r:
+            raise RuntimeError("rig: write_network_info failed: " + r)
+        st.running = False
